@@ -1,7 +1,7 @@
 import Zstd.Basic
 import Zstd.Gen.Consts
 import Zstd.Gen.Huf
-import Zstd.Spec.Fse
+import Zstd.Model.Fse
 /-
 Model of the Huffman coder of `ruzstd` (C13; used by C01/C02/C16):
 
@@ -23,9 +23,13 @@ LOCAL STAND-INS (to be swapped for the shared models of `Zstd.Model.BitIO` / `Zs
   writes 24/32/40 header bits into a writer created with `BitWriter::from(vec)`; the hooks use a fresh
   writer).  The reversed reader is the abstract one (`bits_remaining = 8·len − consumed` as an `Int`,
   zero fill past the beginning); the engine `huf rev` ties it to the real `BitReaderReversed`.
-* the FSE table of compressed weights on the decoder side is `Zstd.Spec.Fse.{readDescription, buildTable}`
-  with the production parameters (max log 6, max symbol 255); all `FSETableError` variants collapse
-  into `HufErr.fseTable`.
+* (replaced) the FSE table of compressed weights on the decoder side and the reader of the weights'
+  stream are the shared models `Zstd.Model.Fse.{DTable.buildDecoder, Decoder, skipEndMark}` over
+  `Zstd.Model.BitIO.BitReaderRev` (production parameters: max log 6, max symbol 255); `HufErr.fseTable`
+  carries the individual `FSETableError` variant.  The `FSETable` object inside the Huffman table is
+  not part of `DecTable`: it is rebuilt from scratch by every `read_weights` (`build_decoder` resets
+  the accuracy log, `read_probabilities` clears the probabilities, `build_decoding_table` clears the
+  table and the counters), only its constant `max_symbol = 255` survives.
 * the FSE *encoder* used by `write_table` for more than 16 weights is a parameter `fseEnc` (the bytes
   `build_table_from_data(weights, 6, true)` + `write_table` + `encode_interleaved` produce).
 -/
@@ -103,7 +107,7 @@ open Bits
 inductive HufErr where
   | sourceIsEmpty
   | notEnoughBytesForWeights (got expected : Nat)
-  | fseTable                                   -- any `FSETableError` (stand-in: Spec.Fse returned none)
+  | fseTable (e : Fse.Err)                     -- `FSETableError` (the variant of the shared FSE model)
   | fseTableUsedTooManyBytes (used avail : Nat)
   | notEnoughBytesToDecompressWeights (got need : Nat)
   | extraPadding (skipped : Nat)
@@ -551,46 +555,38 @@ def nibbles : Nat → List Nat → Except Fault (List Nat)
     | .error f => .error f
     | .ok r => .ok (if Gen.hufEvenIdxHigh then b / 16 :: b % 16 :: r else b % 16 :: b / 16 :: r)
 
-/-- `FSEDecoder` on the weights' table: the current entry -/
-abbrev FseEntry := Spec.Fse.Entry
-
-/-- `self.table.decode[state]` -/
-def fseEntry (ft : Spec.Fse.Table) (state : Nat) : Except Fault FseEntry :=
-  match ft.entries[state]? with
-  | some e => .ok e
-  | none => .error (.index "fse_decoder.rs:decode[state]")
-
-/-- `FSEDecoder::update_state` -/
-def fseUpdate (ft : Spec.Fse.Table) (e : FseEntry) (br : RevReader) : Except Fault (FseEntry × RevReader) :=
-  let (add, br') := br.getBits e.nbBits
-  match fseEntry ft (e.baseline + add) with
-  | .ok e' => .ok (e', br')
-  | .error f => .error f
-
 /-- `br.bits_remaining() <= -1` with the operator and constant of the source -/
-def fseStreamEnd (br : RevReader) : Bool :=
+def fseStreamEnd (br : BitIO.BitReaderRev) : Bool :=
   Gen.hufFseStreamEnd (br.bitsRemaining + 4096).toNat Gen.hufFseStreamEndK
 
-/-- the two-decoder loop of `read_weights`; `wsRev` = `self.weights` reversed.
-Result: `.ok (.ok ws)` = loop left through `break`; `.ok (.error ws)` = TooManyWeights with the
-weights pushed so far. -/
-def fseWeightsLoop (ft : Spec.Fse.Table) : Nat → FseEntry → FseEntry → RevReader → List Nat →
-    Except Fault (Except (List Nat) (List Nat))
-  | 0, _, _, _, _ => .error (.unreachable "model-fuel:read_weights")
-  | fuel + 1, d1, d2, br, wsRev =>
-    let wsRev := d1.symbol :: wsRev
-    match fseUpdate ft d1 br with
-    | .error f => .error f
+/-- the two-decoder loop of `read_weights` over the shared FSE decoder (`Fse.decodeInterLoop` is the
+same loop; this one also returns the weights pushed so far when it ends with TooManyWeights, because
+they stay in `self.weights`); `acc` = `self.weights` reversed.
+Result: `.ok (.ok ws)` = loop left through `break`; `.ok (.error ws)` = TooManyWeights. -/
+def fseWeightsLoop (ft : Fse.DTable) : Nat → Fse.Decoder → Fse.Decoder → BitIO.BitReaderRev → List Nat →
+    Except Fse.Err (Except (List Nat) (List Nat))
+  | 0, _, _, _, _ => .error (.fault (.unreachable "model-fuel:read_weights"))
+  | fuel + 1, d1, d2, br, acc =>
+    let acc := d1.decodeSymbol :: acc
+    match d1.updateState ft br with
+    | .error e => .error e
     | .ok (d1, br) =>
-      if fseStreamEnd br then .ok (.ok (d2.symbol :: wsRev).reverse)
+      if fseStreamEnd br then .ok (.ok (d2.decodeSymbol :: acc).reverse)
       else
-        let wsRev := d2.symbol :: wsRev
-        match fseUpdate ft d2 br with
-        | .error f => .error f
+        let acc := d2.decodeSymbol :: acc
+        match d2.updateState ft br with
+        | .error e => .error e
         | .ok (d2, br) =>
-          if fseStreamEnd br then .ok (.ok (d1.symbol :: wsRev).reverse)
-          else if Gen.hufTooManyWeights wsRev.length Gen.hufTooManyWeightsBound then .ok (.error wsRev.reverse)
-          else fseWeightsLoop ft fuel d1 d2 br wsRev
+          if fseStreamEnd br then .ok (.ok (d1.decodeSymbol :: acc).reverse)
+          else if Gen.hufTooManyWeights acc.length Gen.hufTooManyWeightsBound then .ok (.error acc.reverse)
+          else fseWeightsLoop ft fuel d1 d2 br acc
+
+/-- an error of the FSE layer as it surfaces from `read_weights` -/
+def fseErr (e : Fse.Err) : DErr HufErr :=
+  match e with
+  | .fault f => .fault f
+  | .tableIsUninitialized => .err .fseDecoder
+  | e => .err (.fseTable e)
 
 /-- `HuffmanTable::read_weights`: new state and result (bytes read) -/
 def readWeights (t : DecTable) (source : List Nat) : DecTable × DRes HufErr Nat :=
@@ -600,33 +596,29 @@ def readWeights (t : DecTable) (source : List Nat) : DecTable × DRes HufErr Nat
     if header ≤ Gen.hufFseHeaderMax then
       if header > rest.length then (t, .error (.err (.notEnoughBytesForWeights rest.length header)))
       else
-        match Spec.Fse.readDescription rest Gen.hufWeightsMaxLogDec Gen.hufFseMaxSymbol with
-        | none => (t, .error (.err .fseTable))
-        | some (al, probs, used) =>
-          match Spec.Fse.buildTable al probs with
-          | none => (t, .error (.err .fseTable))
-          | some ft =>
-            if used > header then (t, .error (.err (.fseTableUsedTooManyBytes used header)))
+        match (Fse.DTable.new Gen.hufFseMaxSymbol).buildDecoder rest.toArray Gen.hufWeightsMaxLogDec with
+        | (_, .error e) => (t, .error (fseErr e))
+        | (ft, .ok used) =>
+          if used > header then (t, .error (.err (.fseTableUsedTooManyBytes used header)))
+          else
+            let clen := header - used
+            let cw := rest.drop used
+            if cw.length < clen then (t, .error (.err (.notEnoughBytesToDecompressWeights cw.length clen)))
             else
-              let clen := header - used
-              let cw := rest.drop used
-              if cw.length < clen then (t, .error (.err (.notEnoughBytesToDecompressWeights cw.length clen)))
-              else
-                let br := RevReader.new (cw.take clen)
-                let (skipped, br) := skipPadding 9 0 br
-                if skipped > Gen.hufMaxSkip then (t, .error (.err (.extraPadding skipped)))
-                else if ft.accLog = 0 then (t, .error (.err .fseDecoder))
-                else
-                  let (s1, br) := br.getBits ft.accLog
-                  let (s2, br) := br.getBits ft.accLog
-                  match fseEntry ft s1, fseEntry ft s2 with
-                  | .ok d1, .ok d2 =>
-                    match fseWeightsLoop ft 200 d1 d2 br [] with
-                    | .error f => ({ t with weights := [] }, .error (.fault f))
+              match Fse.skipEndMark (BitIO.BitReaderRev.new (cw.take clen).toArray) with
+              | .error f => (t, .error (.fault f))
+              | .ok none => (t, .error (.err (.extraPadding (Gen.hufMaxSkip + 1))))
+              | .ok (some br) =>
+                match (Fse.Decoder.new ft).initState ft br with
+                | .error e => (t, .error (fseErr e))
+                | .ok (d1, br) =>
+                  match (Fse.Decoder.new ft).initState ft br with
+                  | .error e => (t, .error (fseErr e))
+                  | .ok (d2, br) =>
+                    match fseWeightsLoop ft 130 d1 d2 br [] with
+                    | .error e => ({ t with weights := [] }, .error (fseErr e))
                     | .ok (.error ws) => ({ t with weights := ws }, .error (.err (.tooManyWeights ws.length)))
                     | .ok (.ok ws) => ({ t with weights := ws }, .ok (1 + header))
-                  | .error f, _ => (t, .error (.fault f))
-                  | _, .error f => (t, .error (.fault f))
     else
       let num := header - Gen.hufDirectHeaderSubDec
       let t := { t with weights := resizeNat t.weights num }
